@@ -361,3 +361,47 @@ ASSUMPTIONS = ['the policy table is transcribed from the statement and the profi
 OUTSIDE = ['repositories beyond the miniature shape', 'edits + updates after create (C03 '
            'covers update with the default profile)']
 STUBS = ['ModelFS seams']
+
+
+def validate(seed, tier):
+    """real filesystem, real CLI: `gemato create -p <profile>` on a miniature repository puts
+    Manifests exactly where the transcribed policy wants them and `gemato verify` (default
+    profile) accepts the result"""
+    import os
+    from vf.realcheck import RealTree, gemato
+    agree, details, errs = 0, [], []
+    files = ['cat/pkg/x-1.ebuild', 'cat/pkg/metadata.xml', 'cat/pkg/files/p.patch',
+             'cat/only-files/files/q.patch', 'eclass/e.eclass', 'licenses/L',
+             'metadata/glsa/g.xml', 'metadata/md5-cache/cat/x-1', 'metadata/timestamp',
+             'profiles/categories', 'distfiles/d.tar', 'header.txt']
+    for prof in PROFILES:
+        t = RealTree()
+        try:
+            for i, f in enumerate(files):
+                t.write(f, bytes([97 + i]) * (i + 1))
+            args = ['create', '-p', prof] + (['-H', 'MD5'] if prof == 'default' else []) \
+                + [t.root]
+            rc, out = gemato(*args)
+            if rc != 0:
+                errs.append(f'create -p {prof} failed: {out[-300:]}')
+                continue
+            for d, dn, fn in os.walk(t.root):
+                rel = os.path.relpath(d, t.root)
+                rel = '' if rel == '.' else rel
+                if rel.split('/')[0] == 'distfiles' and prof != 'default':
+                    continue
+                ms = [f for f in fn if f in MNAMES]
+                data = [f for f in fn if f not in MNAMES]
+                want = True if rel == '' else policy_want_manifest(prof, rel, dn, data)
+                if want != (len(ms) == 1) or len(ms) > 1:
+                    errs.append(f'{prof}: directory {rel!r} has Manifests {ms}, policy says '
+                                f'{want}')
+            rcv, outv = gemato('verify', t.root)
+            if rcv != 0:
+                errs.append(f'{prof}: created tree does not verify: {outv[-300:]}')
+            else:
+                agree += 1
+        finally:
+            t.close()
+    details.append({'profiles': list(PROFILES), 'files': len(files)})
+    return agree, details, errs
